@@ -33,12 +33,32 @@ def _f(i):
   return ('f', i)
 
 
+def _norm_eq(d):
+  """Eq(a,b) and Eq(b,a) are the same test: order the two top-level operands"""
+  if not (d.startswith('Eq(') and d.endswith(')')):
+    return d
+  body, depth, cut = d[3:-1], 0, None
+  for i, ch in enumerate(body):
+    if ch in '([{':
+      depth += 1
+    elif ch in ')]}':
+      depth -= 1
+    elif ch == ',' and depth == 0:
+      cut = i
+      break
+  if cut is None:
+    return d
+  a, b_ = body[:cut], body[cut + 1:]
+  a, b_ = sorted((a, b_), key=lambda x: (x.startswith('OutPoint::null'), x))
+  return f'Eq({a},{b_})'
+
+
 def charm_sites(b):
   out = []
   for c in b.calls:
     if c.is_('re:Charm::set$'):
       vs = [o.agg.get('variant') for o in origins(b, c.args[0]) if o.kind == 'agg']
-      gs = {(fmt_desc(g.atom), g.pol) for g in expand(b, all_guards(b, c.bb)) if not fmt_desc(g.atom).startswith('discr(')}
+      gs = {(_norm_eq(fmt_desc(g.atom)), g.pol) for g in expand(b, all_guards(b, c.bb)) if not fmt_desc(g.atom).startswith('discr(')}
       out.append((c, vs[0] if len(vs) == 1 else None, gs))
   return out
 
